@@ -35,7 +35,7 @@ def gen_scenarios(tier, seed):
     scs.append({"kind": "pool", "id": "repo-broadcast-10", "use": "broadcast",
                 "history": [{"n": 10, "panics": []}],
                 "schedule": {"source": "random", "seed": seed + 1, "switch": 500}})
-    n_random = 300 if tier == "quick" else 2500
+    n_random = 600 if tier == "quick" else 6000
     max_n = 3 if tier == "quick" else 6
     for k in range(n_random):
         hist = []
@@ -67,7 +67,7 @@ def gen_scenarios(tier, seed):
                     "history": [{"n": n, "panics": p} for n, p in hist],
                     "spurious": spur,
                     "schedule": {"source": "dfs", "bound": bound,
-                                 "max_runs": 4000 if tier == "quick" else 60000}})
+                                 "max_runs": 8000 if tier == "quick" else 150000}})
     return scs
 
 
